@@ -26,6 +26,7 @@ let handle toks =
     let (q, ok) = append (path_of_string p) (frame_of_string f) in
     string_of_path q ^ " " ^ string_of_bool_ ok
   | ["ext"; p] -> let p = path_of_string p in string_of_ext (ordermin p) ^ " " ^ string_of_ext (ordermax p)
+  | ["succ"; p; t] -> string_of_option string_of_bool_ (success (path_of_string p) (z_of_string t))
   | ["se"; p; l; r] ->
     let p = path_of_string p and l = z_of_string l and r = z_of_string r in
     string_of_option string_of_side (start_point p l r) ^ " " ^ string_of_option string_of_side (end_point p l r)
